@@ -396,9 +396,9 @@ func runC06(c *core.Ctx) {
 	})
 	for _, src := range []string{"reference", "own-marshal"} {
 		src := src
-		n := c.N(150000, 4000000)
+		n := c.N(150000, 10000000)
 		if src == "own-marshal" {
-			n = c.N(50000, 1000000)
+			n = c.N(50000, 3000000)
 		}
 		c.Section("datagrams-"+src, n, func(cs *core.Case) {
 			r := cs.R
